@@ -1,5 +1,6 @@
 import TinkVerif.Gen.MldsaAlgebra
 import TinkVerif.Prim.Mldsa
+import TinkVerif.Model.MldsaPack
 import Driver.Util
 /-! Line protocol for ML-DSA (C10): the regenerated scalar functions (translation validation) and the
     FIPS 204 reference implementation. -/
@@ -54,9 +55,40 @@ def craft (p : Params) (sk mPrime rnd : ByteArray) (kind : String) : Option Byte
       signCore p parts (H (parts.tr ++ mPrime) 64) rnd (fun _ z _ => z == p.gamma1 - p.beta) signFuel (p.gamma1 - p.beta + 1)
   | _ => none
 
+/-! packing codecs: the list model `Model/MldsaPack.lean` (laws in `Props/C10Pack.lean`) -/
+namespace MP
+export TinkVerif.Model.MldsaPack (simpleBitPack simpleBitUnpack bitPack bitUnpack hintBitPackGo hintBitUnpack w1Encode positions)
+end MP
+
+/-- a 0/1 polynomial with ones at the listed positions (positions ≥ 256 make the line a `bad-op`) -/
+def hintPoly? (pos : List Nat) : Option (List Nat) :=
+  if pos.all (· < 256) then some ((List.range 256).map fun j => if pos.contains j then 1 else 0) else none
+
+/-- `spack bits w` · `sunpack bits hex` · `bpack a b w` · `bunpack a b hex` · `hpack ω k pos₀ … pos_{k-1}` ·
+    `hunpack ω k hex` → `ok pos₀ … pos_{k-1}` | `reject` · `w1enc bits w₀ … w_{k-1}` -/
+def codec (toks : List String) : Option String :=
+  match toks with
+  | ["spack", bits, w] => do pure (tokOfBytes (MP.simpleBitPack (← bits.toNat?) (← natList? w)))
+  | ["sunpack", bits, e] => do pure (showNatList (MP.simpleBitUnpack (← bits.toNat?) (← bytesOfTok? e)))
+  | ["bpack", a, b, w] => do pure (tokOfBytes (MP.bitPack (← a.toNat?) (← b.toNat?) (← natList? w)))
+  | ["bunpack", a, b, e] => do pure (showNatList (MP.bitUnpack (← a.toNat?) (← b.toNat?) (← bytesOfTok? e)))
+  | "hpack" :: omega :: k :: polys => do
+    let h ← polys.mapM fun s => do hintPoly? (← natList? s)
+    if h.length != (← k.toNat?) then none
+    pure (tokOfBytes (MP.hintBitPackGo (← omega.toNat?) h))
+  | ["hunpack", omega, k, e] => do
+    match MP.hintBitUnpack (← omega.toNat?) (← k.toNat?) (← bytesOfTok? e) with
+    | some h => pure ("ok " ++ " ".intercalate (h.map fun p => showNatList (MP.positions p)))
+    | none => pure "reject"
+  | "w1enc" :: bits :: polys => do
+    pure (tokOfBytes (MP.w1Encode (← bits.toNat?) (← polys.mapM natList?)))
+  | _ => none
+
 def handle (toks : List String) : Option String :=
   match toks with
   | "s" :: rest => scalar rest
+  | "spack" :: _ | "sunpack" :: _ | "bpack" :: _ | "bunpack" :: _ | "hpack" :: _ | "hunpack" :: _ | "w1enc" :: _ =>
+    codec toks
   | ["keygen", set, seed] => do
     let p ← params? set
     let (pk, sk) := keyGenInternal p (ba (← bytesOfTok? seed))
